@@ -267,6 +267,23 @@ pub fn systematic() -> Vec<(TE, &'static str)> {
         "Vec<BigDecimal>",
         "Vec<BigInt>",
         "Option<Duration>",
+        // zero-sized in memory but not on the wire, pointer-sized in memory but empty on the wire
+        "Vec<((),)>",
+        "Vec<((), ())>",
+        "Vec<[(); 0]>",
+        "Vec<[u64; 0]>",
+        "Vec<(PhantomData<String>,)>",
+        "Vec<[(); 3]>",
+        "Vec<Box<()>>",
+        "Vec<Rc<()>>",
+        "LinkedList<Arc<()>>",
+        "Vec<Arc<PhantomData<String>>>",
+        "[((),); 3]",
+        "[Box<()>; 3]",
+        "HashMap<u8, ((),)>",
+        "(Vec<((),)>, u32)",
+        "(Vec<Box<()>>, String)",
+        "Vec<Option<()>>",
     ] {
         out.push((TE { src: s.to_string(), key: false, zero: false }, "B"));
     }
